@@ -298,7 +298,7 @@ func keysOf(m map[string]bool) []string {
 
 func main() {
 	r := mc.NewRun("C15")
-	r.Rule("E5 full product: {dry_run, measurement_only, both} x technologies {snp, tdx, both} x snapshot dir {none, snap} x candidate {'', x} x overwrite x VMSA count {0, 2} x machine shapes {none, c3-standard-4} x {endorsement file already present or not}, each compared with a real run of the same configuration; recording CA/signer/VCS/ChangeOps doubles; plus the endorse CLI with --dry_run/--measurement_only over localnonvcs; non-trivial = distinct configurations whose real run succeeds and signs at least one measurement")
+	r.Rule("E5 full product: {dry_run, measurement_only, both} x technologies {snp, tdx, both} x snapshot dir {none, snap} x candidate {'', x} x overwrite x VMSA count {0, 2, 3, 256, 1024} x machine shapes {none, c3-standard-4} x {endorsement file already present or not}, each also with Context.VCSs seeded and after a real run on the same Context, each compared with a real run of the same configuration; recording CA/signer/VCS/ChangeOps doubles; plus the endorse CLI with --dry_run/--measurement_only over localnonvcs; non-trivial = distinct configurations whose real run succeeds and signs at least one measurement")
 	defer kmfx.Cleanup()
 	auth, err := fx.NewAuthority(fx.T0, "c15")
 	if err != nil {
